@@ -28,6 +28,25 @@ class Tag:
         return 'Tag(%d)' % self.n
 
 
+def prelayout(doc, params):
+    """'prelayout' cases: a document object denotes its layouts whatever it
+    was used for before - the same object is first laid out under other
+    configurations (everything flat, then as broken as possible), and only the
+    layout after that is the one that is checked."""
+    if not params.get('prelayout'):
+        return
+    try:
+        list(L.layout_smart(doc, width=10 ** 6, ribbon_frac=1.0))
+        list(L.layout_fast(doc, width=1, ribbon_frac=1.0))
+    except Exception:
+        pass          # whatever the engine rejects is reported by the checked layout
+
+
+def wants_prelayout(shape):
+    """Shapes with parts that are evaluated or taken apart during a layout."""
+    return refsem.contains_kind(shape, ('fill', 'align', 'hang', 'fc', 'sh'))
+
+
 class LayoutCase(base.CaseBase):
     def __init__(self, params):
         super().__init__(params)
@@ -62,6 +81,7 @@ class LayoutCase(base.CaseBase):
         if self.nleaves > len(leaves) or self.noffs > len(offs):
             raise base_shape_error(shape)
         doc = refsem.build(shape, leaves, offs, self.anns)
+        prelayout(doc, self.params)
         fn = L.layout_smart if smart else L.layout_fast
         frac = stubs.ribbon_frac_arg(rw, w, self.native)
         return list(fn(doc, width=w, ribbon_frac=frac))
@@ -282,6 +302,11 @@ def cases(tier, seed):
         out.append({'name': 'cur:' + n, 'family': 'layout', 'params': {'shape': s},
                     'budget': 90.0 if tier == 'quick' else 300.0,
                     'twin': n in ('bracket2', 'fill3', 'ann-nested')})
+    for n, s in cur:
+        if wants_prelayout(s):
+            out.append({'name': 'pre:' + n, 'family': 'layout',
+                        'params': {'shape': s, 'prelayout': True},
+                        'budget': 90.0 if tier == 'quick' else 300.0})
     en = gen_docs.enumerated(1, True)
     for n, s in en:
         out.append({'name': n, 'family': 'layout', 'params': {'shape': s},
